@@ -406,5 +406,9 @@ func parseMailboxName(localPart string) (result string, err error) {
 	if idx := strings.Index(result, "+"); idx > -1 {
 		result = result[0:idx]
 	}
+	if result == "" {
+		// The local part was nothing but a +extension.
+		return "", errors.New("mailbox name cannot be empty")
+	}
 	return result, nil
 }
